@@ -26,6 +26,13 @@
 //! * `no-subscriber` (c04_nosub.rs): the WebSocket client has NO live notify subscriber (never subscribed,
 //!   unsubscribed, receiver dropped) while pushes with in-flight ids, id 0 and unknown ids arrive before the real
 //!   responses of several in-flight calls; the same scripts for the TCP clients (no subscriber API).
+//! * `unmatched-run` (c04_runs.rs): LONG runs (16, 17, 40, 200, 1000 in a row) of frames that match no pending call
+//!   (future / past / huge ids, byte-identical duplicates of delivered responses, notify frames, mixed) before, between
+//!   and after the responses of 1..8 calls in flight, calls and batch (`batch_json` and `batch_json_with_timeout`), all
+//!   three clients, followed by further calls on the same connection. The fake server never closes and sends only
+//!   well-formed frames, so a call that fails is the client's doing.
+//! * `batch-connection-loss` (c04_cut.rs): the fake server answers a non-prefix subset of a batch in any order and then
+//!   closes (FIN, RST, WebSocket close frame): slots answered before the close hold their own token, the others an error.
 //!
 //! The verdict is computed offline over the recorded history of a scenario (`judge`).
 
@@ -451,7 +458,8 @@ mod imp {
 
     enum Job {
         Call { scn: u64, cli: Client, slot: usize, api: Api, path: String, body: Value, pre_us: u32 },
-        Batch { scn: u64, cli: Client, reqs: Vec<(String, Value)> },
+        /// `timeout`: Some -> `batch_json_with_timeout`, None -> `batch_json`
+        Batch { scn: u64, cli: Client, reqs: Vec<(String, Value)>, timeout: Option<Duration> },
     }
 
     struct Pool {
@@ -487,8 +495,14 @@ mod imp {
                                     drop(cli);
                                     let _ = out.send(ResMsg::One(scn, slot, r));
                                 }
-                                Job::Batch { scn, cli, reqs } => {
-                                    let r = catching(|| cli.batch_json_with_timeout(reqs, API_TIMEOUT).into_iter().map(val_res).collect::<Vec<_>>())
+                                Job::Batch { scn, cli, reqs, timeout } => {
+                                    let r = catching(|| match timeout {
+                                        Some(t) => cli.batch_json_with_timeout(reqs, t),
+                                        None => cli.batch_json(reqs),
+                                    }
+                                    .into_iter()
+                                    .map(val_res)
+                                    .collect::<Vec<_>>())
                                         .unwrap_or_else(|p| vec![panic_res(p)]);
                                     drop(cli);
                                     let _ = out.send(ResMsg::Batch(scn, r));
@@ -809,7 +823,7 @@ mod imp {
                 let reqs: Vec<(String, Value)> = (0..scn.n).map(|i| (path_of(i), body_of(i))).collect();
                 match &conn.cli {
                     Cli::B(c) => {
-                        let _ = ctx.pool.txs[MAX_N].send(Job::Batch { scn: sidx, cli: c.clone(), reqs });
+                        let _ = ctx.pool.txs[MAX_N].send(Job::Batch { scn: sidx, cli: c.clone(), reqs, timeout: Some(API_TIMEOUT) });
                     }
                     Cli::A(c) => {
                         let (c, tx) = (c.clone(), ctx.pool.res_tx.clone());
@@ -2758,6 +2772,12 @@ mod imp {
     mod nosub {
         include!("c04_nosub.rs");
     }
+    mod runs {
+        include!("c04_runs.rs");
+    }
+    mod cut {
+        include!("c04_cut.rs");
+    }
 
     pub fn run(args: &Args) -> Report {
         let rep = Report::new(
@@ -2773,6 +2793,10 @@ mod imp {
              forward registers the SAME id in that window: both return their own tokens, bystanders too (control: sequential reuse); \
              no-subscriber: WebSocket client never subscribed / unsubscribed / receiver dropped, pushes with in-flight ids, id 0, unknown ids before \
              the real responses must be dropped, every call returns its own response (TCP clients: what they return carries their own id); \
+             unmatched-run: 16/17/40/200/1000 consecutive frames that match no pending call (future, past, huge ids, duplicates of delivered responses, notify frames, mixed) \
+             before/between/after the responses of 1..8 calls in flight (calls and batch, all three clients): every call in flight and every later call on the \
+             same connection returns its own response; batch-connection-loss: the fake server answers a non-prefix subset of a batch in any order, then closes \
+             (FIN / RST / WebSocket close): every slot answered before the close holds its own token, every other slot an error, positions aligned; \
              distinct = reply scripts + probe-order interleavings",
         );
         let rt = match tokio::runtime::Builder::new_multi_thread().worker_threads(4).enable_all().thread_name("c04-rt").build() {
@@ -2817,7 +2841,7 @@ mod imp {
             let v: Option<Value> = std::fs::read_to_string(path).ok().and_then(|t| serde_json::from_str(&t).ok());
             match v.as_ref().and_then(|v| Some((v.get("family")?.as_str()?.to_string(), v.get("index")?.as_u64()?, v.get("seed")?.as_u64()?))) {
                 Some((fam, idx, seed)) if seed == args.seed => {
-                    let fam = ["perm6", "perm6+extras", "random", "bigbatch", "forward", "reuse-window", "no-subscriber"].into_iter().find(|f| *f == fam).unwrap_or("random");
+                    let fam = ["perm6", "perm6+extras", "random", "bigbatch", "forward", "reuse-window", "no-subscriber", "unmatched-run", "batch-connection-loss"].into_iter().find(|f| *f == fam).unwrap_or("random");
                     st.only = Some((fam, idx));
                     st.rep.set("replay_of", json!({"family": fam, "index": idx}));
                 }
@@ -2833,8 +2857,14 @@ mod imp {
 
         // (0a) batches larger than the blocking client's worker pool: positional alignment when a worker handles
         // several requests; the same sizes on the async and the WebSocket client
+        // development stages: `--stage unmatched-run` / `--stage batch-connection-loss` run that one family alone, with a
+        // ten times larger budget (many-seed soundness runs of the two families); `--stage main` runs everything
+        let solo: Option<&str> = ["unmatched-run", "batch-connection-loss"].into_iter().find(|f| *f == args.stage);
+        if let Some(f) = solo {
+            st.rep.set("solo_family", json!(f));
+        }
         let t_family = Instant::now();
-        {
+        if solo.is_none() {
             let mut r = Rng::new(args.seed ^ 0xB16_BA7C);
             let mut plan: Vec<(Kind, usize)> = vec![];
             let cap = blocking_batch_cap();
@@ -2874,7 +2904,7 @@ mod imp {
         // (0b) caller-chosen ids (AsyncClient::forward_message*): colliding with in-flight ids, unused, completed
         st.rep.set("wall_ms_family_bigbatch", json!(t_family.elapsed().as_millis() as u64));
         let t_family = Instant::now();
-        {
+        if solo.is_none() {
             let mut r = Rng::new(args.seed ^ 0xF0_12AD);
             let n_fwd = args.budget(400, 6000);
             for _ in 0..n_fwd {
@@ -2892,16 +2922,34 @@ mod imp {
 
         // (0c) a caller-chosen id registered again while the reader is parked between match and deliver
         let t_family = Instant::now();
-        window::run_family(&mut st, args, &mut index);
+        if solo.is_none() {
+            window::run_family(&mut st, args, &mut index);
+        }
         st.rep.set("wall_ms_family_reuse_window", json!(t_family.elapsed().as_millis() as u64));
 
         // (0d) pushes (in-flight ids, id 0, unknown ids) while the client has no live notify subscriber
         let t_family = Instant::now();
-        nosub::run_family(&mut st, args, &mut index);
+        if solo.is_none() {
+            nosub::run_family(&mut st, args, &mut index);
+        }
         st.rep.set("wall_ms_family_no_subscriber", json!(t_family.elapsed().as_millis() as u64));
 
+        // (0e) long runs (16 .. 1000 in a row) of frames that match no pending call, around the responses of calls in flight
+        let t_family = Instant::now();
+        if solo.is_none() || solo == Some("unmatched-run") {
+            runs::run_family(&mut st, args, &mut index);
+        }
+        st.rep.set("wall_ms_family_unmatched_run", json!(t_family.elapsed().as_millis() as u64));
+
+        // (0f) a batch whose connection dies after the server answered a non-prefix subset of it
+        let t_family = Instant::now();
+        if solo.is_none() || solo == Some("batch-connection-loss") {
+            cut::run_family(&mut st, args, &mut index);
+        }
+        st.rep.set("wall_ms_family_batch_connection_loss", json!(t_family.elapsed().as_millis() as u64));
+
         // (a) exhaustive: every reply order for 6 concurrent calls, each client kind, calls and batch
-        let reps = args.budget(2, 20).max(1);
+        let reps = if solo.is_some() { 0 } else { args.budget(2, 20).max(1) };
         let mut perm_done: HashMap<String, u64> = HashMap::new();
         'outer: for rep_i in 0..reps {
             for kind in [Kind::B, Kind::A, Kind::W] {
@@ -2929,14 +2977,14 @@ mod imp {
                 }
             }
         }
-        let complete = perm_done.len() == 6 && perm_done.values().all(|c| *c == 720 * reps);
+        let complete = solo.is_some() || (perm_done.len() == 6 && perm_done.values().all(|c| *c == 720 * reps));
         st.rep.set("perm6_orders_run_per_client_and_mode", json!(perm_done));
         st.rep.set("perm6_repetitions", json!(reps));
-        st.rep.set("small_scope_exhaustive", json!(complete));
+        st.rep.set("small_scope_exhaustive", json!(complete && solo.is_none()));
         st.rep.exhaustive = Some(false);
 
         // (b) random: N up to 64, hostile extras, eager replies
-        let n_random = args.budget(1500, 30000);
+        let n_random = if solo.is_some() { 0 } else { args.budget(1500, 30000) };
         for i in 0..n_random {
             index += 1;
             let mut r = rng.fork(0xBEEF_0000 + i);
